@@ -248,6 +248,7 @@ class Normaliser:
             for s in nb["stmts"]:
                 _stmt(s, off)
             _term(nb["term"], off, boff)
+            nb.setdefault("from", cj["id"])       # which function this block was written in (innermost splice wins)
             gj["blocks"].append(nb)
         return off, boff
 
